@@ -7,6 +7,8 @@ import (
 	"sort"
 	"strings"
 	"time"
+
+	"verif/internal/props/c08/twin"
 )
 
 // ---------------------------------------------------------------------------------------
@@ -143,6 +145,16 @@ func init() {
 	addNamed("time.Month", time.Month(0), true)
 	addNamed("time.Weekday", time.Weekday(0), true)
 	addNamed("fs.FileMode", fs.FileMode(0), true)
+	// same bare names (and kinds) as types above, different package: see package twin
+	addNamed("twin.Duration", twin.Duration(0), true)
+	addNamed("twin.Month", twin.Month(0), true)
+	addNamed("twin.Weekday", twin.Weekday(0), true)
+	addNamed("twin.FileMode", twin.FileMode(0), true)
+	addNamed("twin.MyInt", twin.MyInt(0), true)
+	addNamed("twin.MyUint8", twin.MyUint8(0), true)
+	addNamed("twin.MyFloat64", twin.MyFloat64(0), true)
+	addNamed("twin.MyString", twin.MyString(""), true)
+	addNamed("twin.MyBool", twin.MyBool(false), true)
 	addNamed("MyErr", MyErr(""), true)
 	addNamed("MyStr", MyStr(""), true)
 
